@@ -144,6 +144,16 @@ integrated exactly over `[0,1]^dim`. -/
 theorem corner_rule_multilinear : ∀ dim ∈ Gen.cornerDims, ∃ r, Gen.corners dim = .ok r ∧ CornerSpec r dim :=
   fun dim hd => checkCorners_sound (corner_obligations dim hd)
 
+/-- the corner rule on every multilinear POLYNOMIAL (terms of per-variable degree ≤ 1): the rule returns the
+term-wise integral over `[0,1]^dim` -/
+theorem corner_rule_polynomials : ∀ dim ∈ Gen.cornerDims, ∃ r, Gen.corners dim = .ok r ∧
+    ∀ terms : List (ℝ × List ℕ), (∀ c ∈ terms, c.2.length = dim ∧ ∀ e ∈ c.2, e ≤ 1) →
+      (r.real.map fun pw => pw.2 * polyEval terms pw.1).sum
+        = (terms.map fun c => c.1 * (c.2.map fun k => ∫ x in (0 : ℝ)..1, x ^ k).prod).sum := by
+  intro dim hd
+  obtain ⟨r, hr, hc⟩ := corner_rule_multilinear dim hd
+  exact ⟨r, hr, fun terms ht => exact_polyN hc.exact terms ht⟩
+
 /-! ### the consumer: `transport_density` / `l1_dissipation` (wasserstein.py) -/
 
 /-- the unit-cell rule of every accepted `(dim, order)` has what a consumer needs: non-negative weights
